@@ -1,6 +1,9 @@
 import GapicModel.Model.PathHelpers
+import GapicModel.Model.ResourceVis
 import GapicModel.Lemmas.Regex
+import GapicModel.Lemmas.C19Vis
 import GapicModel.Pinned.CharClass
+import GapicModel.Pinned.Tables
 /-
 C19 — resource path helpers build and parse names as mutual inverses.
 Property theorems only (helper lemmas about this model are in the `private`/`Aux` section
@@ -13,7 +16,9 @@ open GapicModel.Regex GapicModel.Model.PathHelpers
   * literal text contains no newline;
   * every value is non-empty and newline-free;
   * a variable is followed by a non-empty literal whose first character does not occur in the
-    variable's value, or it ends the pattern (so the last variable may contain `/`). -/
+    variable's value, or it ends the pattern (so the last variable may contain `/`), or the literal
+    that follows it ends the pattern (the last variable before a singleton suffix such as
+    `/settings` may hold anything too: `$` pins the suffix to the end). -/
 def Good : List Seg → List (List Char) → Prop
   | [], vs => vs = []
   | .lit cs :: r, vs => '\n' ∉ cs ∧ Good r vs
@@ -24,7 +29,7 @@ def Good : List Seg → List (List Char) → Prop
         v ≠ [] ∧ '\n' ∉ v ∧
         (match r with
          | [] => True
-         | .lit (c :: _) :: _ => c ∉ v
+         | .lit (c :: _) :: r2 => c ∉ v ∨ r2 = []
          | _ => False) ∧ Good r vs'
 
 /-- captures produced by a successful parse, most recent first (as the matcher stores them). -/
@@ -45,6 +50,28 @@ theorem lit_fail (t : ClassTables) (c : Char) (cs : List Char) (r : List Re) (pr
     have hd := h d tl rfl
     simp only [List.map_cons, List.cons_append, m_seqR_cons, m]
     simp [Ne.symm hd]
+
+/-- a literal suffix followed by `$` cannot match anywhere but at the very end. -/
+theorem lits_eol_fail (t : ClassTables) (L y : List Char) (pre caps) (k : K)
+    (hy : y ≠ []) (hny : '\n' ∉ y) (hnl : '\n' ∉ L) :
+    m t (seqR (L.map .chr ++ [.eol])) ⟨pre, y ++ L, caps⟩ k = none := by
+  rw [m_seqR_chrs]
+  split
+  · simp only [seqR, adv]
+    apply eol_fail
+    · intro h
+      have hl := congrArg List.length h
+      simp at hl
+      cases y with
+      | nil => exact hy rfl
+      | cons _ _ => simp at hl
+    · intro h
+      have := List.mem_of_mem_drop h
+      simp only [List.mem_append] at this
+      cases this with
+      | inl h => exact hny h
+      | inr h => exact hnl h
+  · rfl
 
 /-- the matcher, run on a built path, consumes it entirely and records exactly the values. -/
 theorem match_build (t : ClassTables) : ∀ (segs : List Seg) (vals : List (List Char)) (i : Nat),
@@ -127,6 +154,17 @@ theorem match_build (t : ClassTables) : ∀ (segs : List Seg) (vals : List (List
                 cases cs2 with
                 | nil => simp at hnext
                 | cons c cs3 =>
+                  cases hnext with
+                  | inr hlast =>
+                    subst hlast
+                    simp only [Good] at hgood
+                    obtain ⟨hnlL, hvs⟩ := hgood
+                    subst hvs
+                    have hy : x.drop j ≠ [] := by simp; omega
+                    have hny : '\n' ∉ x.drop j := fun h => hx (List.mem_of_mem_drop h)
+                    simp only [segItems, litItems, build, List.append_nil]
+                    exact lits_eol_fail t (c :: cs3) (x.drop j) _ _ _ hy hny hnlL
+                  | inl hnext =>
                   have := lit_fail t c cs3 (segItems (i+1) r2 ++ [.eol])
                   simp only [segItems, litItems, List.map_cons, List.cons_append, List.append_assoc] at this ⊢
                   apply this
@@ -254,11 +292,293 @@ theorem args_are_variables (segs : List Seg) :
   | nil => intro; rfl
   | cons sg r ih => intro i; cases sg <;> simp [namesFrom, pathArgs, ih]
 
+/-! ## The round trip in the property's own words
+
+`Good` is what the proof needs.  The statement of C19 speaks of "segment values that do not contain a
+delimiter of the pattern (with `/` allowed only inside the trailing `**` variable)" over patterns in
+which a variable is followed by a separator or ends the pattern.  `Shape` and `NoDelim` restate
+that; `roundtrip_in_quantifier` is the property's sentence, for all patterns and values, and it is
+STRONGER than the sentence (the last variable may hold any newline-free text, a value may hold a
+separator that belongs to another variable).  What is still excluded — the reason
+`parse_build_partial` keeps its suffix — is exactly: an empty value, a newline in a value.  Both are
+run on the real code on every run (excluded-point stream) and are listed findings. -/
+
+/-- first character of the literal at the head of the remaining pattern -/
+def followDelim : List Seg → List Char
+  | .lit (c :: _) :: _ => [c]
+  | _ => []
+
+/-- the non-slash delimiters of a pattern: the first character of every literal that follows a variable -/
+def delims : List Seg → List Char
+  | [] => []
+  | .lit _ :: r => delims r
+  | .var _ _ :: r => followDelim r ++ delims r
+
+/-- the quantifier's patterns: newline-free literal text; a variable is followed by a non-empty
+literal or ends the pattern (no `{a}{b}`) -/
+def Shape : List Seg → Prop
+  | [] => True
+  | .lit cs :: r => '\n' ∉ cs ∧ Shape r
+  | .var _ _ :: r =>
+      (match r with
+       | [] => True
+       | .lit (_ :: _) :: _ => True
+       | _ => False) ∧ Shape r
+
+/-- the quantifier's values w.r.t. a delimiter set `D`: one value per variable, non-empty, newline-free,
+free of every delimiter in `D` — except the LAST variable (it ends the pattern, or only a literal
+suffix follows it), which may hold anything (in particular `/`, for `{v=**}`) -/
+def NoDelim (D : List Char) : List Seg → List (List Char) → Prop
+  | [], vs => vs = []
+  | .lit _ :: r, vs => NoDelim D r vs
+  | .var _ _ :: _, [] => False
+  | .var _ _ :: r, v :: vs => v ≠ [] ∧ '\n' ∉ v ∧ (r = [] ∨ (∃ L, r = [.lit L]) ∨ ∀ c ∈ D, c ∉ v) ∧ NoDelim D r vs
+
+theorem noDelim_good (D : List Char) : ∀ (segs : List Seg) (vals : List (List Char)),
+    Shape segs → (∀ c ∈ delims segs, c ∈ D) → NoDelim D segs vals → Good segs vals := by
+  intro segs
+  induction segs with
+  | nil => intro vals _ _ h; simpa [NoDelim, Good] using h
+  | cons sg r ih =>
+    intro vals hs hd hv
+    cases sg with
+    | lit cs =>
+      simp only [Shape] at hs
+      simp only [NoDelim] at hv
+      simp only [Good]
+      exact ⟨hs.1, ih vals hs.2 (fun c hc => hd c (by simpa [delims] using hc)) hv⟩
+    | var n mu =>
+      cases vals with
+      | nil => simp [NoDelim] at hv
+      | cons v vs =>
+        simp only [Shape] at hs
+        simp only [NoDelim] at hv
+        obtain ⟨hne, hnl, hdl, hrest⟩ := hv
+        have hg := ih vs hs.2 (fun c hc => hd c (by simp [delims, hc])) hrest
+        simp only [Good]
+        refine ⟨hne, hnl, ?_, hg⟩
+        cases r with
+        | nil => trivial
+        | cons sg2 r2 =>
+          cases sg2 with
+          | var _ _ => exact absurd hs.1 (by simp)
+          | lit cs2 =>
+            cases cs2 with
+            | nil => exact absurd hs.1 (by simp)
+            | cons c cs3 =>
+              cases hdl with
+              | inl h => cases h
+              | inr h =>
+                cases h with
+                | inl h =>
+                  obtain ⟨L, hL⟩ := h
+                  simp only [List.cons.injEq] at hL
+                  exact Or.inr hL.2
+                | inr h => exact Or.inl (h c (hd c (by simp [delims, followDelim])))
+
+/-- **The property's sentence**: for every pattern of the quantifier's shape and all values free of
+the pattern's delimiters (`/` and the separators that follow a variable; the variable that ends the
+pattern is unrestricted), parsing the built path returns exactly the segments and rebuilding from
+them returns the path. -/
+theorem roundtrip_in_quantifier (t : ClassTables) (segs : List Seg) (vals : List (List Char))
+    (hs : Shape segs) (hv : NoDelim ('/' :: delims segs) segs vals) :
+    parse t segs (build segs vals) = expected segs vals ∧
+    build segs ((parse t segs (build segs vals)).map (·.2)) = build segs vals := by
+  have hg := noDelim_good ('/' :: delims segs) segs vals hs (fun c hc => List.mem_cons_of_mem _ hc) hv
+  exact ⟨parse_build_partial t segs vals hg, rebuild_partial t segs vals hg⟩
+
+/-- all four non-slash separators inside ONE segment, a singleton-free tail `{f=**}` holding `/`:
+`as/{a}-{b}_{c}~{d}.{e}/k/{f=**}` with `x1`, `y+`, `z z`, `u`, `v@w`, `p/q-r/s`. -/
+example :
+    let segs := [.lit "as/".toList, .var "a".toList false, .lit "-".toList, .var "b".toList false,
+      .lit "_".toList, .var "c".toList false, .lit "~".toList, .var "d".toList false, .lit ".".toList,
+      .var "e".toList false, .lit "/k/".toList, .var "f".toList true]
+    Shape segs ∧ NoDelim ('/' :: delims segs) segs
+      ["x1".toList, "y+".toList, "z z".toList, "u".toList, "v@w".toList, "p/q-r/s".toList] := by
+  simp [Shape, NoDelim, delims, followDelim]
+
+/-- the five common resources' patterns (`Service.common_resources`, bridged table
+`Pinned.commonResources`), tokenised. -/
+def commonSegs : List (List Seg) :=
+  [[.lit "projects/".toList, .var "project".toList false],
+   [.lit "organizations/".toList, .var "organization".toList false],
+   [.lit "folders/".toList, .var "folder".toList false],
+   [.lit "billingAccounts/".toList, .var "billing_account".toList false],
+   [.lit "projects/".toList, .var "project".toList false, .lit "/locations/".toList, .var "location".toList false]]
+
+/-- the tokenised forms ARE the patterns of the table extracted from the source. -/
+theorem common_segs_are_the_table :
+    commonSegs.map (fun s => String.ofList (render s)) = GapicModel.Pinned.commonResources.map (·.2) := by decide
+
+/-- **the five common resources round-trip** for all values without `/` (the last one
+unrestricted): each `common_<x>_path` / `parse_common_<x>_path` pair is emitted from
+`path_regex_str` of these patterns. -/
+theorem common_resources_roundtrip (t : ClassTables) (segs : List Seg) (hs : segs ∈ commonSegs)
+    (vals : List (List Char)) (hv : NoDelim ['/'] segs vals) :
+    parse t segs (build segs vals) = expected segs vals ∧
+    build segs ((parse t segs (build segs vals)).map (·.2)) = build segs vals := by
+  have hshape : Shape segs ∧ ∀ c ∈ delims segs, c ∈ ['/'] := by
+    simp only [commonSegs, List.mem_cons, List.not_mem_nil, or_false] at hs
+    rcases hs with h | h | h | h | h <;> subst h <;> simp [Shape, delims, followDelim]
+  have hg := noDelim_good ['/'] segs vals hshape.1 hshape.2 hv
+  exact ⟨parse_build_partial t segs vals hg, rebuild_partial t segs vals hg⟩
+
+example : NoDelim ['/'] [.lit "projects/".toList, .var "project".toList false, .lit "/locations/".toList, .var "location".toList false]
+    ["p-1".toList, "us/central1".toList] := by
+  simp [NoDelim]
+
+/-! ## Which resources a service sees, and which helper each one gets (Model/ResourceVis.lean) -/
+
+section Visibility
+open GapicModel.Model.ResourceVis GapicModel.Lemmas.C19Vis
+
+/-- the property's "visible to a service", declaratively: a resource is visible iff some message
+reachable (through message-typed fields, any depth, cycles allowed) from the request type or from the
+response type of a method — for a long-running method the operation's `response_type` — either IS
+that resource or has a field whose `resource_reference` (type or child_type) names it in the API-wide
+table of file-level definitions and message resources (nested messages included). -/
+def Visible (api : Api) (ms : List Method) (r : Res) : Prop :=
+  ∃ me ∈ ms, ∃ root, (root = me.input ∨ root = me.effOutput) ∧
+    ∃ n m, Reach api root n ∧ api.findMsg n = some m ∧
+      (m.res = some r ∨ ∃ f ∈ m.fields, ∃ t, f.ref = some t ∧ lookupRes api t = some r)
+
+theorem mem_msgResources (api : Api) (m : Message) (r : Res) :
+    r ∈ msgResources api m ↔
+      (m.res = some r ∨ ∃ f ∈ m.fields, ∃ t, f.ref = some t ∧ lookupRes api t = some r) := by
+  simp only [msgResources, List.mem_append, Option.mem_toList, List.mem_filterMap]
+  constructor
+  · intro h
+    cases h with
+    | inl h => exact Or.inl h
+    | inr h =>
+      obtain ⟨f, hf, hb⟩ := h
+      cases hr : f.ref with
+      | none => simp [hr] at hb
+      | some t => exact Or.inr ⟨f, hf, t, hr, by simpa [hr] using hb⟩
+  · intro h
+    cases h with
+    | inl h => exact Or.inl h
+    | inr h =>
+      obtain ⟨f, hf, t, ht, hl⟩ := h
+      exact Or.inr ⟨f, hf, by simp [ht, hl]⟩
+
+theorem mem_resourcesOf (api : Api) (root : Name) (r : Res) :
+    r ∈ resourcesOf api root ↔ ∃ n m, Reach api root n ∧ api.findMsg n = some m ∧
+      (m.res = some r ∨ ∃ f ∈ m.fields, ∃ t, f.ref = some t ∧ lookupRes api t = some r) := by
+  simp only [resourcesOf, List.mem_flatMap]
+  constructor
+  · intro h
+    obtain ⟨n, hn, hr⟩ := h
+    cases hm : api.findMsg n with
+    | none => simp [nameResources, hm] at hr
+    | some m =>
+      simp only [nameResources, hm] at hr
+      exact ⟨n, m, (mem_reachable_iff api root n).mp hn, hm, (mem_msgResources api m r).mp hr⟩
+  · intro h
+    obtain ⟨n, m, hn, hm, hr⟩ := h
+    refine ⟨n, (mem_reachable_iff api root n).mpr hn, ?_⟩
+    simp only [nameResources, hm]
+    exact (mem_msgResources api m r).mpr hr
+
+/-- **The helper set is exactly the visible set**: `Service.resource_messages` (as the set of
+(type, first pattern) observables) holds a resource iff it is `Visible` — for every API, every
+nesting depth, recursive messages included. -/
+theorem service_resources_exactly_visible (api : Api) (ms : List Method) (r : Res) :
+    r ∈ serviceResources api ms ↔ Visible api ms r := by
+  simp only [serviceResources, List.mem_flatMap, List.mem_append, Visible]
+  constructor
+  · intro h
+    obtain ⟨me, hme, hr⟩ := h
+    cases hr with
+    | inl h => exact ⟨me, hme, me.input, Or.inl rfl, (mem_resourcesOf api _ r).mp h⟩
+    | inr h => exact ⟨me, hme, me.effOutput, Or.inr rfl, (mem_resourcesOf api _ r).mp h⟩
+  · intro h
+    obtain ⟨me, hme, root, hroot, hr⟩ := h
+    refine ⟨me, hme, ?_⟩
+    cases hroot with
+    | inl h => subst h; exact Or.inl ((mem_resourcesOf api _ r).mpr hr)
+    | inr h => subst h; exact Or.inr ((mem_resourcesOf api _ r).mpr hr)
+
+/-- a resource carried by the response type of a long-running operation is visible even if nothing
+else in the service mentions it (the clause seed4_C19 removed). -/
+theorem lro_response_resource_visible (api : Api) (ms : List Method) (me : Method) (n : Name)
+    (m : Message) (r : Res) (hme : me ∈ ms) (hl : me.lro = some n) (hm : api.findMsg n = some m)
+    (hr : m.res = some r) : r ∈ serviceResources api ms := by
+  rw [service_resources_exactly_visible]
+  exact ⟨me, hme, me.effOutput, Or.inr rfl, n, m, by simp [Method.effOutput, hl]; exact Reach.refl _, hm, Or.inl hr⟩
+
+/-- every referenced resource that is defined is visible, one helper each (the clause seed3_C19
+collapsed): a field of the request naming a type the API-wide table knows. -/
+theorem referenced_definition_visible (api : Api) (ms : List Method) (me : Method) (m : Message)
+    (f : Field) (t : Name) (r : Res) (hme : me ∈ ms) (hm : api.findMsg me.input = some m)
+    (hf : f ∈ m.fields) (ht : f.ref = some t) (hl : lookupRes api t = some r) :
+    r ∈ serviceResources api ms := by
+  rw [service_resources_exactly_visible]
+  exact ⟨me, hme, me.input, Or.inl rfl, me.input, m, Reach.refl _, hm, Or.inr ⟨f, hf, t, ht, hl⟩⟩
+
+/-- what the table can answer: a referenced resource has the type asked for and is a file-level
+definition or the resource of a message (top-level or nested) of some file. -/
+theorem lookup_is_defined (api : Api) (t : Name) (r : Res) (h : lookupRes api t = some r) :
+    r.type = t ∧ ∃ f ∈ api.files, r ∈ f.defs ∨ ∃ n ∈ f.all, ∃ m, api.findMsg n = some m ∧ m.res = some r := by
+  simp only [lookupRes] at h
+  obtain ⟨f, hf, hp⟩ := List.exists_of_findSome?_eq_some h
+  simp only [protoLookup] at hp
+  have hty := List.find?_some hp
+  have hmem := List.mem_of_find?_eq_some hp
+  simp only [List.mem_reverse, List.mem_append, List.mem_filterMap] at hmem
+  refine ⟨by simpa using hty, f, hf, ?_⟩
+  cases hmem with
+  | inl h => exact Or.inl h
+  | inr h =>
+    obtain ⟨n, hn, hb⟩ := h
+    cases hm : api.findMsg n with
+    | none => simp [hm] at hb
+    | some m => exact Or.inr ⟨n, hn, m, hm, by simpa [hm] using hb⟩
+
+/-- the `def`s of the class body: one pair per visible resource in emission order, then the common
+resources' pairs under their own names (`common_<x>_path`); the last `def` of a name wins. -/
+def offeredAll (nm : Res → Name) (rs : List Res) (common : List (Name × Res)) (h : Name) : Option Res :=
+  match common.reverse.find? (fun c => c.1 == h) with
+  | some c => some c.2
+  | none => offered nm rs h
+
+/-- **Every visible resource has its own helper**, whatever the emission order `rs` of the visible
+set — provided helper names are distinct on it (`nm` is injective there) and none is the name of a
+common-resource helper.  Both provisos are needed: see the two counterexamples below. -/
+theorem helper_for_every_visible_resource (api : Api) (ms : List Method) (nm : Res → Name)
+    (rs : List Res) (common : List (Name × Res)) (r : Res)
+    (hperm : ∀ x, x ∈ rs ↔ x ∈ serviceResources api ms)
+    (hinj : ∀ a ∈ rs, ∀ b ∈ rs, nm a = nm b → a = b)
+    (hcommon : ∀ c ∈ common, c.1 ≠ nm r)
+    (hv : Visible api ms r) : offeredAll nm rs common (nm r) = some r := by
+  have hr : r ∈ rs := (hperm r).mpr ((service_resources_exactly_visible api ms r).mpr hv)
+  have hnone : common.reverse.find? (fun c => c.1 == nm r) = none := by
+    rw [List.find?_eq_none]
+    intro c hc
+    have := hcommon c (List.mem_reverse.mp hc)
+    simpa using this
+  simp only [offeredAll, hnone, offered]
+  exact find_last nm r rs.reverse (fun a ha hn => hinj a (List.mem_reverse.mp ha) r hr hn) (List.mem_reverse.mpr hr)
+
+end Visibility
+
 /-! ## Non-vacuity: the hypotheses are satisfiable by a non-trivial input -/
 
 /-- `shelves/{shelf}/books/{book=**}` with values `s-1`, `b/1` (a `/` inside the trailing variable). -/
 example : Good [.lit "shelves/".toList, .var "shelf".toList false, .lit "/books/".toList, .var "book".toList true]
     ["s-1".toList, "b/1".toList] := by
+  simp [Good]
+
+/-- `projects/{project}/docs/{doc=**}` with values `p-1`, `2024/09/30/notes.txt`: any number of `/`
+inside the trailing variable (not just one) lies inside `Good`. -/
+example : Good [.lit "projects/".toList, .var "project".toList false, .lit "/docs/".toList, .var "doc".toList true]
+    ["p-1".toList, "2024/09/30/notes.txt".toList] := by
+  simp [Good]
+
+/-- `users/{user}/settings` with the value `al/settings/ice`: the last variable before a singleton
+suffix may hold the suffix itself (third disjunct of `Good`). -/
+example : Good [.lit "users/".toList, .var "user".toList false, .lit "/settings".toList]
+    ["al/settings/ice".toList] := by
   simp [Good]
 
 /-- `as/{a}-{b}` : a non-slash separator between two variables of one segment. -/
@@ -279,6 +599,22 @@ theorem dot_separator_roundtrip :
       (build [.lit "as/".toList, .var "a".toList false, .lit ".".toList, .var "b".toList false] ["xy".toList, "z".toList])
     = [("a", "xy".toList), ("b", "z".toList)] := by decide
 
+/-- a trailing `{v=**}` value of several segments (`a/b/c`, two `/`) round-trips.  Instance of
+`parse_build_partial`, kept as a witness evaluated on the model (a regex that bounds the number
+of segments of the `**` group breaks exactly this). -/
+theorem multi_segment_tail_roundtrip :
+    parse tt [.lit "p/".toList, .var "p".toList false, .lit "/d/".toList, .var "d".toList true]
+      (build [.lit "p/".toList, .var "p".toList false, .lit "/d/".toList, .var "d".toList true] ["x".toList, "a/b/c".toList])
+    = [("p", "x".toList), ("d", "a/b/c".toList)] := by decide
+
+/-- the last variable before a singleton suffix may hold the suffix: `users/{user}/settings` with
+`al/settings/ice`.  Instance of `parse_build_partial` (a regex that loses the `$` or the trailing
+literal breaks exactly this), evaluated on the model. -/
+theorem suffix_inside_last_value_roundtrip :
+    parse tt [.lit "users/".toList, .var "user".toList false, .lit "/settings".toList]
+      (build [.lit "users/".toList, .var "user".toList false, .lit "/settings".toList] ["al/settings/ice".toList])
+    = [("user", "al/settings/ice".toList)] := by decide
+
 /-- a value containing a newline does not survive (`.` does not match `\n`). -/
 theorem newline_counterexample :
     parse tt [.lit "p/".toList, .var "a".toList false] (build [.lit "p/".toList, .var "a".toList false] ["x\ny".toList])
@@ -288,5 +624,97 @@ theorem newline_counterexample :
 theorem empty_segment_counterexample :
     parse tt [.lit "p/".toList, .var "a".toList false] (build [.lit "p/".toList, .var "a".toList false] [[]])
     = [] := by decide
+
+/-- a value holding the separator that follows its variable — excluded by the property's own
+quantifier and by `Good` — is split at the FIRST separator: `as/{a}-{b}` with `x-y`, `z`. -/
+theorem delimiter_in_value_counterexample :
+    parse tt [.lit "as/".toList, .var "a".toList false, .lit "-".toList, .var "b".toList false]
+      (build [.lit "as/".toList, .var "a".toList false, .lit "-".toList, .var "b".toList false] ["x-y".toList, "z".toList])
+    = [("a", "x".toList), ("b", "y-z".toList)] := by decide
+
+/-- two variables with nothing between them (`p/{a}{b}`, outside `Shape`): the first one gets one
+character. -/
+theorem adjacent_variables_counterexample :
+    parse tt [.lit "p/".toList, .var "a".toList false, .var "b".toList false]
+      (build [.lit "p/".toList, .var "a".toList false, .var "b".toList false] ["xy".toList, "z".toList])
+    = [("a", "x".toList), ("b", "yz".toList)] := by decide
+
+/-- `Good` is weaker than the quantifier's exclusion: a value may hold a separator of the pattern
+that does not follow ITS variable (`as/{a}-{b}_{c}` with `x_y`, `u`, `w`).  Witness evaluated on the
+model; the same point is compared with the real code by the beyond-quantifier stream. -/
+theorem other_separator_in_value_roundtrip :
+    parse tt [.lit "as/".toList, .var "a".toList false, .lit "-".toList, .var "b".toList false, .lit "_".toList, .var "c".toList false]
+      (build [.lit "as/".toList, .var "a".toList false, .lit "-".toList, .var "b".toList false, .lit "_".toList, .var "c".toList false]
+        ["x_y".toList, "u".toList, "w".toList])
+    = [("a", "x_y".toList), ("b", "u".toList), ("c", "w".toList)] := by decide
+
+/-! ## Visibility: a concrete API, and what the hypotheses of `helper_for_every_visible_resource`
+exclude -/
+
+section VisibilityExamples
+open GapicModel.Model.ResourceVis GapicModel.Lemmas.C19Vis
+
+private def rA : Res := ⟨"l/Alpha".toList, "as/{a}".toList⟩
+private def rB : Res := ⟨"o/Bravo".toList, "bs/{b}".toList⟩
+private def rO : Res := ⟨"l/Out".toList, "os/{o=**}".toList⟩
+private def rU : Res := ⟨"o/Unused".toList, "us/{u}".toList⟩
+
+/-- request `Rq` refers to the file-level `o/Bravo` and has a field of the recursive message `Mid`,
+which holds an `Alpha`; the method is long-running with response type `Out`; `o/Unused` is defined
+but never referenced. -/
+private def demoApi : Api :=
+  { files := [⟨[rB, rU], ["Rq".toList, "Mid".toList, "Alpha".toList, "Out".toList]⟩],
+    msgs := [⟨"Rq".toList, [⟨none, some "o/Bravo".toList⟩, ⟨some "Mid".toList, none⟩], none⟩,
+             ⟨"Mid".toList, [⟨some "Mid".toList, none⟩, ⟨some "Alpha".toList, none⟩], none⟩,
+             ⟨"Alpha".toList, [⟨none, none⟩], some rA⟩,
+             ⟨"Out".toList, [], some rO⟩,
+             ⟨"Op".toList, [], none⟩] }
+private def demoMethods : List Method := [⟨"Rq".toList, "Op".toList, some "Out".toList⟩]
+
+/-- the model on that API: the referenced definition, the resource two levels down a recursive
+message, the LRO response type; not the unreferenced definition. -/
+theorem demo_service_resources : serviceResources demoApi demoMethods = [rA, rB, rO] := by decide
+
+/-- the hypotheses of `helper_for_every_visible_resource` hold for it (emission order = any
+permutation; here reversed), with the short type name as helper name. -/
+example : (∀ x, x ∈ [rO, rA, rB] ↔ x ∈ serviceResources demoApi demoMethods) ∧
+    (∀ a ∈ [rO, rA, rB], ∀ b ∈ [rO, rA, rB], shortName a.type = shortName b.type → a = b) ∧
+    (∀ c ∈ [("common_project".toList, rU)], c.1 ≠ shortName rA.type) ∧ Visible demoApi demoMethods rA := by
+  refine ⟨?_, by decide, by decide, ?_⟩
+  · intro x; rw [demo_service_resources]; simp only [List.mem_cons, List.not_mem_nil, or_false]
+    constructor <;> (intro h; rcases h with h | h | h <;> simp [h])
+  · exact (service_resources_exactly_visible demoApi demoMethods rA).mp (by rw [demo_service_resources]; simp)
+
+/-- **helper-name collision** (injectivity proviso; listed finding `helper-name-collision:same-short-name`):
+two visible resources whose types share the short name get one helper — the pattern of
+`bar.example.com/Thing` has none, `thing_path` is the other resource's. -/
+theorem helper_name_collision_counterexample :
+    let bar : Res := ⟨"bar.example.com/Thing".toList, "bars/{bar}/things/{thing}".toList⟩
+    let foo : Res := ⟨"foo.example.com/Thing".toList, "foos/{foo}/things/{thing}".toList⟩
+    offeredAll (fun r => shortName r.type) [bar, foo] [] (shortName bar.type) = some foo := by decide
+
+/-- **collision with a common-resource helper** (second proviso): a visible resource whose helper
+name is `common_project` loses its helper to the common resource `Project`, whose `def` comes later. -/
+theorem common_prefix_collision_counterexample :
+    let mine : Res := ⟨"lib.example.com/common_project".toList, "foos/{foo}".toList⟩
+    let proj : Res := ⟨"cloudresourcemanager.googleapis.com/Project".toList, "projects/{project}".toList⟩
+    offeredAll (fun r => shortName r.type) [mine] [("common_project".toList, proj)] (shortName mine.type) = some proj := by decide
+
+/-- **regression (was `nested_resource_reference_counterexample` before /repo 109fab8)**: a resource
+declared on a NESTED message and only referred to by name IS visible — `Proto.resource_messages`
+now lists every message of the file, so `visible_resources.get` finds it and the helper pair is
+emitted.  Same input as the former counterexample. -/
+theorem nested_resource_reference_regression :
+    let inner : Res := ⟨"l/Inner".toList, "inners/{inner}".toList⟩
+    let api : Api := { files := [⟨[], ["Outer.Inner".toList, "Outer".toList, "Rq".toList]⟩],
+                       msgs := [⟨"Outer".toList, [⟨none, none⟩], none⟩,
+                                ⟨"Outer.Inner".toList, [⟨none, none⟩], some inner⟩,
+                                ⟨"Rq".toList, [⟨none, some "l/Inner".toList⟩], none⟩,
+                                ⟨"E".toList, [], none⟩] }
+    serviceResources api [⟨"Rq".toList, "E".toList, none⟩] = [inner] ∧
+    offeredAll (fun r => shortName r.type) (serviceResources api [⟨"Rq".toList, "E".toList, none⟩]) []
+      "Inner".toList = some inner := by decide
+
+end VisibilityExamples
 
 end GapicModel.Props.C19
